@@ -201,6 +201,7 @@ def run(ctx):
     run_families(ctx)
     run_constraints_over_ignored(ctx, ctx.budget(24, 400))
     VB.flush()
+    import e3condense; e3condense.run_condense_e3(ctx, ctx.budget(60, 1500))
 
 
 def scc_edge_sets(G):
